@@ -25,6 +25,7 @@ indexmap = { version = "2.2" }"""
 
 SIG_F8 = "C16.enum_variant_comment_roundtrip"
 SIG_OPTOPT = "C16.nested_option_roundtrip"
+SIG_ML = "C16.multiline_doc_attribute"
 
 LEAF_SPELL = {"&str": "&'a str", "chrono::DateTime<Tz>": "chrono::DateTime<chrono::Utc>"}
 UNSIZED = {"str", "std::path::Path", "std::ffi::OsStr"}
@@ -49,6 +50,22 @@ DOC_SAFE = "abcdefghijklmnopqrstuvwxyzABCDEFGHIJKLMNOPQRSTUVWXYZ0123456789      
 DOC_UNI = ("\u2013\u2014\u2018\u2019\u201c\u201d\u2022\u2026\u2030\u2032\u2039\u203a\u203c\u2002\u2009\u200b\u2010\u2000\u203f\u2040\u206f"
            "\u0085\u00a0\ufeff\u00e9\u00df\u07ff\u0800\u1fff\u2070\u20ac\ufffd\U0001f600\U00010000")
 DOC_FULL = DOC_SAFE + ":;()[]{}?!#*/<>=+&|@$%^~`\"\\\t_"
+
+
+SPLIT_DOC_LINES = [False]     # set by main() from translate/doc_split.py
+
+
+def split_doc(text):
+    return [l[:-1] if l.endswith("\r") else l for l in text.split("\n")]
+
+
+def comments_of(docs):
+    """The comments extract_doc_comments (zlink-macros/src/utils.rs) makes of the doc attributes: one per
+    attribute, or one per line of an attribute's text when the function splits at line ends."""
+    out = []
+    for x in docs:
+        out += split_doc(x["text"]) if SPLIT_DOC_LINES[0] else [x["text"]]
+    return out
 
 
 def ctor_spell(name):
@@ -148,6 +165,12 @@ class Gen:
                 out.append({"text": body, "form": "attr"})
         if k >= 2 and rng.random() < 0.3:
             out[rng.choice([k // 2, k - 1])] = {"text": "", "form": "sl"}       # a blank `///` line
+        if k >= 1 and rng.random() < 0.015:
+            # a doc attribute whose text spans lines: a block comment or an explicit #[doc = "a\nb"]
+            a = "".join(rng.choice(DOC_SAFE) for _ in range(8)).strip()
+            b = "".join(rng.choice(DOC_SAFE) for _ in range(8)).strip()
+            out[rng.randrange(k)] = rng.choice([{"text": " %s\n * %s " % (a, b), "form": "block"},
+                                                {"text": "%s\n%s" % (a, b), "form": "attr"}])
         return out
 
     def field_names(self, k, allow_raw):
@@ -274,7 +297,7 @@ class Gen:
 
     def coq_fields(self, fs):
         return cg.cq_list(["{| fd_name := %s; fd_ty := %s; fd_docs := %s |}" % (
-            self.coq_ident(f["name"], f["raw"]), f["ty"]["coq"], cg.cq_comments([x["text"] for x in f["docs"]]))
+            self.coq_ident(f["name"], f["raw"]), f["ty"]["coq"], cg.cq_comments(comments_of(f["docs"])))
             for f in fs])
 
     def coq_decl(self, d):
@@ -292,10 +315,10 @@ class Gen:
                 else:
                     vb = "(VTuple [%s])" % v["ty"]["coq"]
                 vs.append("{| vd_name := %s; vd_docs := %s; vd_body := %s |}" % (
-                    self.coq_ident(v["name"], v["raw"]), cg.cq_comments([x["text"] for x in v["docs"]]), vb))
+                    self.coq_ident(v["name"], v["raw"]), cg.cq_comments(comments_of(v["docs"])), vb))
             body = "(DEnum %s)" % cg.cq_list(vs)
         return "{| d_name := %s; d_docs := %s; d_body := %s |}" % (
-            self.coq_ident(d["rname"], False), cg.cq_comments([x["text"] for x in d["docs"]]), body)
+            self.coq_ident(d["rname"], False), cg.cq_comments(comments_of(d["docs"])), body)
 
     @staticmethod
     def rust_docs(docs, ind):
@@ -303,9 +326,11 @@ class Gen:
         for x in docs:
             if x["form"] == "sl":
                 out.append("%s///%s" % (ind, x["text"]))
+            elif x["form"] == "block":
+                out.append("%s/**%s*/" % (ind, x["text"]))       # the text may span lines
             else:
                 out.append('%s#[doc = "%s"]' % (ind, x["text"].replace("\\", "\\\\").replace('"', '\\"')
-                                                  .replace("\t", "\\t")))
+                                                  .replace("\t", "\\t").replace("\n", "\\n")))
         return out
 
     def rust_fields(self, fs, ind, pub=True):
@@ -406,13 +431,13 @@ def gen_corpus(ck, rows):
         n_if = 1 if b["isolated"] else (6 if quick else 20)
         for j in range(n_if):
             it = {"id": "%s.i%d" % (b["name"], j), "name": "org.example.%s.I%d" % (b["name"], j),
-                  "docs": [x["text"] for x in g.docs(True) if "\t" not in x["text"]],
+                  "docs": [x["text"] for x in g.docs(True) if "\t" not in x["text"] and "\n" not in x["text"]],
                   "types": [d["id"] for d in rng.sample(customs, min(len(customs), rng.choice([0, 1, 2, 3])))],
                   "methods": [], "errors": rng.choice(errs)["id"] if errs and rng.random() < 0.7 else None}
             for m in range(rng.choice([0, 1, 2, 3]) if objs else 0):
                 it["methods"].append({"name": rng.choice(["Get", "Set", "List", "Do"]) + rng.choice(WORDS).capitalize()
                                       + str(m), "in": rng.choice(objs)["id"], "out": rng.choice(objs)["id"],
-                                      "docs": [x["text"] for x in g.docs(True) if "\t" not in x["text"]]})
+                                      "docs": [x["text"] for x in g.docs(True) if "\t" not in x["text"] and "\n" not in x["text"]]})
             b["ifaces"].append(it)
     return g, bins
 
@@ -452,6 +477,8 @@ def mini_bins(ck, path_or_obj, prefix, next_id):
             d["id"] = next_id
             next_id += 1
             d["users"] = [remap[u] for u in d.get("users") or []]
+            if SPLIT_DOC_LINES[0] and d.get("coq_if_split"):
+                d["coq"] = d["coq_if_split"]
             d.setdefault("has_raw", False)
             d.setdefault("docs", [])
             d["mini"] = True
@@ -607,6 +634,25 @@ def has_nested_option(j):
     return '{"opt": {"opt":' in json.dumps(j)
 
 
+def has_multiline_comment(j):
+    """Does a dumped interface carry a comment whose text contains a line end (a block doc comment or
+    #[doc = "a\\nb"] described as ONE comment)?"""
+    def walk(x):
+        if isinstance(x, str):
+            return False
+        if isinstance(x, dict):
+            if "comments" in x and any("\n" in c for c in x["comments"]):
+                return True
+            return any(walk(v) for v in x.values())
+        if isinstance(x, list):
+            if len(x) in (2, 3) and isinstance(x[0], str) and isinstance(x[-1], list) and \
+                    all(isinstance(c, str) for c in x[-1]) and any("\n" in c for c in x[-1]):
+                return True
+            return any(walk(v) for v in x)
+        return False
+    return walk(j)
+
+
 def norm_iface(j, with_comments=True, inline_comments=True):
     """Interface JSON with comment texts stripped of leading/trailing blanks (the renderer writes
     `# ` + text and the parser drops the blanks after `#`), or without comments at all, or without the
@@ -643,6 +689,10 @@ def main():
     spec = importlib.util.spec_from_file_location("type_table", os.path.join(VERIF, "translate", "type_table.py"))
     rc, out = sh([sys.executable, os.path.join(VERIF, "translate", "type_table.py")])
     ck.samples.append("translator: " + " | ".join(l for l in out.splitlines() if "row" not in l)[:600])
+    rc3, out3 = sh([sys.executable, os.path.join(VERIF, "translate", "doc_split.py")])
+    if rc3 != 0:
+        ck.violation("translator doc_split.py: " + out3.strip()[-200:], {"log": out3}, tag="doc_split", no_input=True)
+    SPLIT_DOC_LINES[0] = "split_lines=true" in out3
     tt = importlib.util.module_from_spec(spec)
     spec.loader.exec_module(tt)
     translator_ok = rc == 0
@@ -764,6 +814,7 @@ def main():
                          tag="m_" + d["rname"], no_input=True)
     # ---- interfaces: render -> parse -> equal
     n_if, n_rt_ok, n_f8, n_optopt, n_comment_loss, comment_loss_sample = 0, 0, 0, 0, 0, []
+    n_ml = 0
     for b in bins:
         if b in failed_bins:
             continue
@@ -798,7 +849,10 @@ def main():
             what += ("parse error " + r.get("err", "")[:120]) if not r["parse_ok"] else (
                 "parsed != original" if not r["eq"] else ("names, types or order differ after the round trip"
                                                           if not same_struct else "a comment is lost or changed by the round trip"))
-            if has_variant_comments(r["orig"]):
+            if has_multiline_comment(r["orig"]):
+                n_ml += 1
+                ck.violation(what, rp, tag="if_" + it["id"], sig=SIG_ML)
+            elif has_variant_comments(r["orig"]):
                 n_f8 += 1
                 ck.violation(what, rp, tag="if_" + it["id"], sig=SIG_F8)
             elif has_nested_option(r["orig"]):
@@ -828,6 +882,8 @@ def main():
         "declaration_kinds": shapes, "interfaces_round_tripped": n_if, "interfaces_equal_after_round_trip": n_rt_ok,
         "interfaces_hitting_known_variant_comment_defect": n_f8,
         "interfaces_hitting_known_nested_option_defect": n_optopt,
+        "interfaces_hitting_known_multiline_doc_defect": n_ml,
+        "doc_attributes_split_into_lines_by_the_derive": SPLIT_DOC_LINES[0],
         "interfaces_equal_but_comments_of_inline_struct_fields_lost_by_the_parser": n_comment_loss,
         "comment_loss_sample": comment_loss_sample,
         "table_rows_never_used_in_corpus": unused,
